@@ -86,7 +86,7 @@ fn replay_clauses() {
 fn main() {
     let args: Vec<String> = std::env::args().collect();
     let label = args.get(1).cloned().unwrap_or_default();
-    if label.starts_with("replay") || label.is_empty() { replay_clauses(); if !label.is_empty() { return; } }
+    if label.starts_with("replay") || label.starts_with("try_replay") || label.starts_with("scan_tail") || label.is_empty() { replay_clauses(); if !label.is_empty() { return; } }
     if label.starts_with("strip_line_terminator") {
         let alpha = [b'a', b'\n', b'\r'];
         for n in 0..=5u32 { for code in 0..3usize.pow(n) {
